@@ -345,6 +345,7 @@ class Check:
         self.t0 = time.time()
         self.viol = {}          # key -> {detail, replay, count}
         self.foreign = {}       # (prop,key) -> count   anomalies that belong to another property
+        self.foreign_example = {}
         self.stats = {}
         self.max, self.min = {}, {}
         self.samples = []
@@ -377,6 +378,8 @@ class Check:
         if prop != self.prop:
             k = (prop, key)
             self.foreign[k] = self.foreign.get(k, 0) + 1
+            if k not in self.foreign_example and isinstance(replay_obj, dict):
+                self.foreign_example[k] = "%s :: %s" % (replay_obj.get("tag") or replay_obj.get("cmd"), str(detail)[:300])
             return
         if key in self.viol:
             self.viol[key]["count"] += 1
@@ -415,7 +418,7 @@ class Check:
             print("violation key=%s :: %s (x%d)" % (key, v["detail"][:600], v["count"]))
             print("VIOLATION property=%s replay=%s" % (self.prop, v["replay"]))
         for (p, key), c in sorted(self.foreign.items()):
-            print("note: anomaly belonging to %s seen %d time(s) while checking %s: %s (reported by that property's check)" % (p, c, self.prop, key))
+            print("note: anomaly belonging to %s seen %d time(s) while checking %s: %s (reported by that property's check) e.g. %s" % (p, c, self.prop, key, self.foreign_example.get((p, key), "")[:400]))
         if require:
             for name, mnv in require.items():
                 if self.stats.get(name, 0) < mnv:
